@@ -3,6 +3,8 @@ import vlib
 from props import initgen, drawgen
 
 PER_SHARD = 60
+CASE_TYPE = "(lcase * lout)"
+IMPORTS = "Require Import Corr.L2 Corr.DrawL."
 RULE = ("the real Builder::init of every built-in model x interface kind x option sets, with and without reset pin, reset pin, delay "
         "source and bus recorded on one timeline; plus drawing / orientation / sleep programs after init to confirm the pin is never "
         "touched again; plus rejected configurations (nothing may happen); non-trivial = reset pin configured or unsupported pairing")
@@ -33,4 +35,25 @@ def gen(rng, tier, info):
                                       ("vo", 5), drawgen.op_inbounds(rng, lw, lh, cmax)])) for _ in range(rng.range(1, 4))]
         pc["tags"] = ["post-init-program"]
         cases.append(vlib.pcase(pc))
+    cases = [drawgen.wrap_l(c, False) for c in cases]
+    # the whole init below the real transports (SPI; 8/16-bit parallel with data pins idling low AND high): the first
+    # thing the panel latches must still be the reset
+    mt = info["models"]
+    for mid in [i for i in sorted(mt.keys()) if i < 100]:
+        m = mt[mid]
+        for iface in (3, 4, 5):
+            if drawgen.KIND_OF_IFACE[iface] not in m["kinds"] or (iface == 5 and m["color"] != "Rgb565"):
+                continue
+            for rst in (False, True):
+                if tier == "quick" and rng.chance(1, 2):
+                    continue
+                f = rng.choice(initgen.all_flag_opts())
+                w, h, ox, oy = drawgen.window(rng, m["fw"], m["fh"])
+                pc = dict(md=rng.choice(["d", "r"]), batch=True, model=mid, iface=iface, ifparam=rng.choice([3, 4, 7, 64]) if iface == 3 else 0,
+                          rst=rst, use_size=True, opts=dict(f, w=w, h=h, ox=ox, oy=oy), ops=[], tags=["iface%d" % iface, "rst" if rst else "norst"],
+                          nontrivial=True)
+                cases.append(drawgen.wrap_l(vlib.pcase(pc), True))
     return cases
+
+
+wrap_impl = drawgen.wrap_impl_l
